@@ -162,8 +162,8 @@ def check(ctx):
     # ---- C16.c data removed iff last trigger removed ----
     try:
         rem = A.method(prog, "EntityReactor", "remove")
-        # role: the free function that removes the reactor's local-data component (its name is private)
-        crds = [b_ for b_ in prog.bodies if b_.kind == "fn" and not b_.raw.get("impl_self") and any(
+        # role: the function (free, or an associated function of a private type) that removes the reactor's local-data component
+        crds = [b_ for b_ in prog.bodies if b_.kind in ("fn", "assoc_fn") and not b_.raw.get("impl_trait") and any(
             fr_ and lib.tail(mir.fn_name(fr_), 2) in ("EntityCommands::remove", "EntityWorldMut::remove") and any("EntityWorldLocal" in a_ for a_ in fr_.get("args", []))
             for _, _, fr_ in b_.iter_calls())]
         crd = crds[0] if len(crds) == 1 else A.free_fn(prog, "cleanup_reactor_data")
